@@ -749,6 +749,57 @@ def build_mixed_partition(c):
     return whole, parts
 
 
+# ------------------------------------------------------------------ family 8: hollow bodies (a closed shell inside a closed shell)
+def gen_hollow_mesh(rng):
+    dim = [rnd(rng, 0.8, 3.0) for _ in range(3)]
+    idim = [rnd(rng, 0.3, 0.6) * d for d in dim]
+    ioff = [rnd(rng, -0.9, 0.9) * (d - i) / 2 * 0.8 for d, i in zip(dim, idim)]
+    margin = 0.03 * min(idim)
+    planes = [[-d / 2, d / 2, o - i / 2, o + i / 2] for d, i, o in zip(dim, idim, ioff)]
+    size = max(dim)
+    obs = []
+    while len(obs) < 7:
+        k = rng.random()
+        if k < 0.3:      # in the cavity
+            p = [rnd(rng, o - i / 2, o + i / 2) for i, o in zip(idim, ioff)]
+        elif k < 0.65:   # in the wall or the cavity
+            p = [rnd(rng, -d / 2, d / 2) for d in dim]
+        else:
+            p = [rnd(rng, -1.5 * size, 1.5 * size) for _ in range(3)]
+        if all(off_planes(p[a], planes[a], margin) for a in range(3)):
+            obs.append(p)
+    return {"family": "hollow_mesh", "dim": dim, "idim": idim, "ioff": ioff, "pol": gen_pol(rng), "pose": gen_pose(rng),
+            "obs": obs, "outer_first": rng.random() < 0.5, "inner_outward": rng.random() < 0.5,
+            "ctor": rng.choice(["direct", "from_mesh", "from_triangles"]), "mode": rng.choice(["sumup", "collection", "loop"])}
+
+
+def build_hollow_mesh(c):
+    """outer Cuboid = hollow TriangularMesh (outer shell + cavity wall, faces in either order, the cavity wall given
+    in either orientation: reorient_faces must turn it towards the cavity) + the plug Cuboid that fills the cavity"""
+    pose, pol = c["pose"], c["pol"]
+    wp = whole_pose(pose)
+    Vo = cube_vertices(c["dim"])
+    Vi = cube_vertices(c["idim"]) + np.array(c["ioff"], dtype=float)
+    fo = [tuple(f) for f in CUBE_F]
+    fi = [tuple(i + 8 for i in (f if c["inner_outward"] else f[::-1])) for f in CUBE_F]
+    V = np.vstack([Vo, Vi])
+    faces = fo + fi if c["outer_first"] else [tuple(i + 8 if i < 8 else i - 8 for i in f) for f in fi + fo]
+    if not c["outer_first"]:
+        V = np.vstack([Vi, Vo])
+    kw = {"check_open": "raise", "check_disconnected": "ignore", "reorient_faces": True}
+    if c["ctor"] == "direct":
+        m = magpy.magnet.TriangularMesh(polarization=pol, vertices=V, faces=faces, **wp, **kw)
+    elif c["ctor"] == "from_mesh":
+        m = magpy.magnet.TriangularMesh.from_mesh(mesh=V[np.array(faces)], polarization=pol, **wp, **kw)
+    else:
+        tris = [magpy.misc.Triangle(polarization=pol, vertices=V[list(f)]) for f in faces]
+        m = magpy.magnet.TriangularMesh.from_triangles(triangles=tris, polarization=pol, **wp, **kw)
+    outer = magpy.magnet.Cuboid(polarization=pol, dimension=c["dim"], **wp)
+    plug = magpy.magnet.Cuboid(polarization=pol, dimension=c["idim"], **place(pose, c["ioff"]))
+    return [("hollow-mesh+plug=Cuboid", outer, [m, plug], FIELDS),
+            ("to_TriangleCollection(hollow)", m, m.to_TriangleCollection(), ("H",))]
+
+
 def _with_each(gen):
     def g(rng):
         c = gen(rng)
@@ -775,6 +826,7 @@ FAMILIES = {
     "polyline_circle": gen_polyline_circle,
     "mesh_convert": gen_mesh_convert,
     "mixed_partition": gen_mixed_partition,
+    "hollow_mesh": gen_hollow_mesh,
 }
 FAMILIES = {k: _with_each(v) for k, v in FAMILIES.items()}
 
@@ -824,7 +876,8 @@ def build_mesh_convert(c):
 # tolerance (rtol on the local field, atol in units of the field scale) per family; measured noise on the pinned
 # tree is <= 1e-8 (cylinder segments) resp. <= 1e-11 (everything else) relative to the local field
 TOL = {"cuboid_partition": (1e-7, 1e-10), "cylinder_partition": (2e-6, 1e-9), "cuboid_repr": (1e-7, 1e-10),
-       "sphere_dipole": (1e-9, 1e-12), "mesh_convert": (1e-7, 1e-10), "mixed_partition": (1e-7, 1e-10)}
+       "sphere_dipole": (1e-9, 1e-12), "mesh_convert": (1e-7, 1e-10), "mixed_partition": (1e-7, 1e-10),
+       "hollow_mesh": (1e-7, 1e-10)}
 
 CLAUSE = {"cuboid_partition": "Cuboid=sum-of-Cuboids", "mixed_partition": "Cuboid=sum-of-mixed-parts", "sphere_dipole": "Sphere-outside=Dipole",
           "polyline_circle": "Polyline->Circle"}
@@ -841,6 +894,8 @@ def clause_of(c, label=None):
                 "tetra5": "Cuboid=Tetrahedra", "tetra6": "Cuboid=Tetrahedra", "triangles": "Cuboid=Triangles(H)"}[c["rep"]]
     if fam == "mesh_convert":
         return "TriangularMesh." + (label or c["conv"])
+    if fam == "hollow_mesh":
+        return "TriangularMesh." + (label or "hollow")
     return CLAUSE[fam]
 
 
@@ -857,6 +912,10 @@ def region_of(c, i):
     """is observer i (local frame) inside the whole body? decided geometrically, not by the code"""
     p = np.array(c["obs"][i], dtype=float)
     fam = c["family"]
+    if fam == "hollow_mesh":
+        if all(abs(p[k] - c["ioff"][k]) < c["idim"][k] / 2 for k in range(3)):
+            return "cavity"
+        return "wall" if all(abs(p[k]) < c["dim"][k] / 2 for k in range(3)) else "outside"
     if fam in ("cuboid_partition", "cuboid_repr", "mixed_partition"):
         return "inside" if all(abs(p[k]) < c["dim"][k] / 2 for k in range(3)) else "outside"
     if fam == "cylinder_partition":
@@ -877,7 +936,7 @@ def cut_axes(c):
     return ""
 
 
-LENGTH_KEYS = ("dim", "edges", "r", "z", "obs", "d", "points", "path", "voff", "pmove", "panchor")
+LENGTH_KEYS = ("idim", "ioff", "dim", "edges", "r", "z", "obs", "d", "points", "path", "voff", "pmove", "panchor")
 SCALES = (1.0, 1.0, 1e-3, 1e-6, 1e3)       # absolute size of the body in metres (the library works in SI units)
 
 
@@ -921,6 +980,8 @@ def _build(g):
         return [(None,) + build_sphere_dipole(g) + (FIELDS,)]
     if fam == "mesh_convert":
         return build_mesh_convert(g)
+    if fam == "hollow_mesh":
+        return build_hollow_mesh(g)
     raise ValueError(fam)
 
 
